@@ -69,7 +69,7 @@ Proof.
     destruct (bmeas _ _ _ _) as [[b' outs]|]; [discriminate|intros H; inversion H; auto].
 Qed.
 
-(* as written: a failing command leaves the backend and the RegRef values alone, and nothing is logged *)
+(* in every variant a failing command leaves the backend and the RegRef values alone, and nothing is logged *)
 Lemma apply_cmd_err V s c k s' l :
   apply_cmd V s c = Err k (s', l) -> sb s' = sb s /\ svals s' = svals s /\ l = [].
 Proof.
@@ -260,6 +260,102 @@ Theorem reset_clears w e p :
   all_none (nth (pregs p) (wvals (fst (reset (w, e)))) [])
   /\ erun (snd (reset (w, e))) = [] /\ esamples (snd (reset (w, e))) = [] /\ elog (snd (reset (w, e))) = [].
 Proof. intros Hin Hr. simpl. split; [apply clear_regs_clears; auto|auto]. Qed.
+
+(* Two engines are indistinguishable when they agree on everything the segment loop reads: run
+   history, samples, measured values, and -- once something has been run -- the backend.  (With an
+   empty run history the backend is re-initialised by the next run, whatever it holds.) *)
+Definition eng_equiv (e1 e2 : eng B) : Prop :=
+  erun e1 = erun e2 /\ esamples e1 = esamples e2 /\ elog e1 = elog e2 /\ (erun e1 <> [] -> eb e1 = eb e2).
+
+Definition res_equiv (r1 r2 : res (world * eng B)) : Prop :=
+  match r1, r2 with
+  | Ok (w1, e1), Ok (w2, e2) => w1 = w2 /\ eng_equiv e1 e2
+  | Err k1 (w1, e1), Err k2 (w2, e2) => k1 = k2 /\ w1 = w2 /\ eng_equiv e1 e2
+  | _, _ => False
+  end.
+
+Lemma eng_equiv_refl e : eng_equiv e e.
+Proof. repeat split; auto. Qed.
+
+Lemma res_equiv_refl r : res_equiv r r.
+Proof. destruct r as [[w e]|k [w e]]; simpl; repeat split; auto. Qed.
+
+Lemma reset_equiv_fresh w e : eng_equiv (snd (reset (w, e))) fresh.
+Proof. simpl. repeat split; auto; try (intros H; contradiction H; reflexivity). Qed.
+
+Lemma run_seg_equiv V w e1 e2 p :
+  eng_equiv e1 e2 -> res_equiv (run_seg V (w, e1) p) (run_seg V (w, e2) p).
+Proof.
+  destruct e1 as [b1 r1 s1 l1], e2 as [b2 r2 s2 l2]. unfold eng_equiv; simpl.
+  intros (Hr & Hs & Hl & Hb). subst r2 s2 l2.
+  destruct r1 as [|prev rest].
+  - unfold Model.run_seg. simpl.
+    destruct (pcopy p && negb (linkok V) && circ_symbolic (wstore w) (pcirc p)); simpl.
+    + repeat split; auto; try (intros H; contradiction H; reflexivity).
+    + destruct (exec V _ (pcirc p)) as [[s l]|k [s l]]; simpl; repeat split; auto.
+  - rewrite Hb by discriminate. apply res_equiv_refl.
+Qed.
+
+Lemma run_list_cons V we p t :
+  run_list V we (p :: t) = match run_seg V we p with Ok we' => run_list V we' t | Err k we' => Err k we' end.
+Proof. reflexivity. Qed.
+
+Lemma run_list_equiv V ps : forall w e1 e2,
+  eng_equiv e1 e2 -> res_equiv (run_list V (w, e1) ps) (run_list V (w, e2) ps).
+Proof.
+  induction ps as [|p t IH]; intros w e1 e2 H.
+  - simpl. split; auto.
+  - rewrite !run_list_cons. pose proof (run_seg_equiv V w e1 e2 p H) as R.
+    destruct (run_seg V (w, e1) p) as [[w1 x1]|k1 [w1 x1]], (run_seg V (w, e2) p) as [[w2 x2]|k2 [w2 x2]];
+      simpl in R; try contradiction.
+    + destruct R as [-> R]. apply IH; exact R.
+    + exact R.
+Qed.
+
+Lemma reset_equiv w e1 e2 :
+  eng_equiv e1 e2 -> fst (reset (w, e1)) = fst (reset (w, e2)) /\ eng_equiv (snd (reset (w, e1))) (snd (reset (w, e2))).
+Proof.
+  intros (Hr & _). simpl. rewrite Hr. split; auto.
+  repeat split; auto; try (intros H; contradiction H; reflexivity).
+Qed.
+
+(* a whole session started from indistinguishable engines: same outcome of every call, same world
+   at the end, indistinguishable engines at the end *)
+Theorem run_hist_equiv V h : forall w e1 e2,
+  eng_equiv e1 e2 ->
+  snd (run_hist V (w, e1) h) = snd (run_hist V (w, e2) h)
+  /\ fst (fst (run_hist V (w, e1) h)) = fst (fst (run_hist V (w, e2) h))
+  /\ eng_equiv (snd (fst (run_hist V (w, e1) h))) (snd (fst (run_hist V (w, e2) h))).
+Proof.
+  induction h as [|c t IH]; intros w e1 e2 H; simpl.
+  - repeat split; auto; apply H.
+  - assert (S : exists w' x1 x2 o, do_call V (w, e1) c = ((w', x1), o) /\ do_call V (w, e2) c = ((w', x2), o) /\ eng_equiv x1 x2).
+    { destruct c as [ps|]; simpl.
+      - pose proof (run_list_equiv V ps w e1 e2 H) as R.
+        destruct (run_list V (w, e1) ps) as [[w1 x1]|k1 [w1 x1]], (run_list V (w, e2) ps) as [[w2 x2]|k2 [w2 x2]];
+          simpl in R; try contradiction.
+        + destruct R as [-> R]. exists w2, x1, x2, None. auto.
+        + destruct R as (-> & -> & R). exists w2, x1, x2, (Some k2). auto.
+      - destruct (reset_equiv w e1 e2 H) as [A R].
+        exists (fst (reset (w, e1))), (snd (reset (w, e1))), (snd (reset (w, e2))), None.
+        split; [reflexivity|]. split; [|exact R].
+        rewrite A. reflexivity. }
+    destruct S as (w' & x1 & x2 & o & -> & -> & R).
+    specialize (IH w' x1 x2 R).
+    destruct (run_hist V (w', x1) t) as [[wa ea] oa], (run_hist V (w', x2) t) as [[wb eb'] ob]. simpl in *.
+    destruct IH as (A & B0 & C). subst. repeat split; auto; apply C.
+Qed.
+
+(* after a reset, every later session of run / reset calls behaves as on a new engine *)
+Theorem reset_then_history V h w e :
+  let after := reset (w, e) in
+  snd (run_hist V after h) = snd (run_hist V (fst after, fresh) h)
+  /\ fst (fst (run_hist V after h)) = fst (fst (run_hist V (fst after, fresh) h))
+  /\ eng_equiv (snd (fst (run_hist V after h))) (snd (fst (run_hist V (fst after, fresh) h))).
+Proof.
+  intros after. pose proof (run_hist_equiv V h (fst after) (snd after) fresh (reset_equiv_fresh w e)) as R.
+  rewrite <- surjective_pairing in R. exact R.
+Qed.
 
 (* ------------------------------------------------------------------ compositionality *)
 Definition keys0 (l : mlog) : Prop := forall kz, In kz l -> fst kz = 0.
@@ -466,25 +562,25 @@ Proof. exists [false], [0; 0]. split; [reflexivity|left; reflexivity]. Qed.
 (* ------------------------------------------------------------------ refutations (trace backend) *)
 Definition tb_run := run_list tb_init tb_gate tb_meas.
 
-(* Gate.apply as written: a daggered gate whose parameter cannot be evaluated yet (mode 0 not
+(* Gate.apply before commit 0e1fbb4 (old_code): a daggered gate whose parameter cannot be evaluated yet (mode 0 not
    measured) raises inside _apply; p[0] stays negated in the user's op object. *)
 Definition g_dag := mkCmd KGate 0 0 true [1].
 Definition w_exc := mkWorld [[PMeas 0]] [vclear 2] [false].
 Theorem store_changed_on_exception_refuted :
-  exists w p, match tb_run as_written (w, fresh) [p] with
+  exists w p, match tb_run old_code (w, fresh) [p] with
               | Err EParam (w', _) => wstore w' <> wstore w
               | _ => False
               end.
 Proof. exists w_exc, (mkProg 0 0 2 false [g_dag]). vm_compute. discriminate. Qed.
 
-(* the engine as written: the first segment measures mode 1, the second uses q[1].par; the
+(* the engine before commit 711526c (old_code): the first segment measures mode 1, the second uses q[1].par; the
    concatenated program runs, the two-segment form raises ParameterError *)
 Definition m1 := mkCmd KMeas 5 1 false [1].
 Definition use1 := mkCmd KGate 0 0 false [0].
 Definition w_seg := mkWorld [[PMeas 1]; []] [vclear 2; vclear 2; vclear 2] [false; false; false].
-Theorem compositional_as_written_refuted :
+Theorem compositional_old_refuted :
   exists w p1 p2 pc, pcirc pc = pcirc p1 ++ pcirc p2 /\
-    obs tb (tb_run as_written (w, fresh) [p1; p2]) <> obs tb (tb_run as_written (w, fresh) [pc]).
+    obs tb (tb_run old_code (w, fresh) [p1; p2]) <> obs tb (tb_run old_code (w, fresh) [pc]).
 Proof.
   exists w_seg, (mkProg 0 0 2 false [m1]), (mkProg 1 1 2 false [use1]), (mkProg 2 2 2 false [m1; use1]).
   split; [reflexivity|]. vm_compute. discriminate.
@@ -495,22 +591,22 @@ Qed.
    concatenated program raises *)
 Definition use0 := mkCmd KGate 0 0 false [1].
 Definition w_seg0 := mkWorld [[PMeas 0]; []] [vclear 2; vclear 2; vclear 2] [false; false; false].
-Theorem compositional_as_written_wrong_mode_refuted :
+Theorem compositional_old_wrong_mode_refuted :
   exists w p1 p2 pc, pcirc pc = pcirc p1 ++ pcirc p2 /\
-    fst (fst (obs tb (tb_run as_written (w, fresh) [p1; p2]))) = None /\
-    fst (fst (obs tb (tb_run as_written (w, fresh) [pc]))) = Some EParam.
+    fst (fst (obs tb (tb_run old_code (w, fresh) [p1; p2]))) = None /\
+    fst (fst (obs tb (tb_run old_code (w, fresh) [pc]))) = Some EParam.
 Proof.
   exists w_seg0, (mkProg 0 0 2 false [m1]), (mkProg 1 1 2 false [use0]), (mkProg 2 2 2 false [m1; use0]).
   split; [reflexivity|]. vm_compute. split; reflexivity.
 Qed.
 
-(* Program._linked_copy as written: running (= compiling again) a program that is itself a compiled
+(* Program._linked_copy before commit 8c7ef76 (old_code): running (= compiling again) a program that is itself a compiled
    copy and uses a measured parameter raises before the engine does anything, although the very
    same circuit runs when the program is not a copy *)
 Definition m0c := mkCmd KMeas 6 1 false [0].
 Definition useq0 := mkCmd KGate 0 0 false [1].
 Definition w_link := mkWorld [[PMeas 0; PConst 0]; []] [vclear 2] [true; true].
 Theorem linked_copy_rerun_refuted :
-  exists w c, (match tb_run as_written (w, fresh) [mkProg 1 0 2 true c] with Err EAttr _ => True | _ => False end)
-           /\ (match tb_run as_written (w, fresh) [mkProg 0 0 2 false c] with Ok _ => True | _ => False end).
+  exists w c, (match tb_run old_code (w, fresh) [mkProg 1 0 2 true c] with Err EAttr _ => True | _ => False end)
+           /\ (match tb_run old_code (w, fresh) [mkProg 0 0 2 false c] with Ok _ => True | _ => False end).
 Proof. exists w_link, [m0c; useq0]. vm_compute. split; exact I. Qed.
